@@ -8,6 +8,7 @@ META_EXCLUDE.add('node_call_id')
 META_EXCLUDE.add('node_sock')
 META_EXCLUDE.add('node_without_result')
 META_EXCLUDE.add('success_channels')
+META_EXCLUDE.update(('complete_channels', 'cause', 'effects'))  # read by Manager._dispatcher/_eventDone
 
 
 def load_event(s):
